@@ -445,6 +445,19 @@ impl Program {
 }
 
 /// `scale-info-derive`'s normalisation of `quote!(#ty).to_string()`.
+thread_local! {
+    static QUALIFIED_COMPACT: std::cell::Cell<bool> = const { std::cell::Cell::new(false) };
+}
+
+/// Elaborate with `Compact<..>` spelled `codec::Compact<..>` in the written type names (a spelling variant of the
+/// source program; ids and shapes are the same).
+pub fn with_qualified_compact<T>(on: bool, f: impl FnOnce() -> T) -> T {
+    let before = QUALIFIED_COMPACT.with(|q| q.replace(on));
+    let r = f();
+    QUALIFIED_COMPACT.with(|q| q.set(before));
+    r
+}
+
 pub fn clean_type_string(input: &str) -> String {
     input
         .replace(" ::", "::")
@@ -634,7 +647,11 @@ impl<'a> Elab<'a> {
             if is_phantom(&closed) {
                 continue;
             }
-            let type_name = type_name_of_src(&prog.ty_src(&f.ty, Some(def)));
+            let mut type_name = type_name_of_src(&prog.ty_src(&f.ty, Some(def)));
+            if QUALIFIED_COMPACT.with(|q| q.get()) {
+                // the source spells the type with its crate path: `codec::Compact<T>` (the derive writes it as spelled)
+                type_name = type_name.replace("Compact<", "codec::Compact<");
+            }
             let id = if f.compact {
                 self.register(&Ty::Compact(Box::new(closed)))
             } else {
